@@ -489,9 +489,14 @@ def trimPrefix (p s : String) : String :=
     parent -/
 def stripOAIGenForRef (fc : Facts) (x : Ext) (st : St) (k : String) (r : NewRef) : Outcome (St × Bool) := do
   let pr := SortRef.topmostFirst r.parents
-  match pr with
-  | [] => Outcome.panic "index out of range [0]"
-  | p0 :: others =>
+  -- a `$ref` held by the definition itself cannot receive the definition's schema: the first parent is the
+  -- topmost one outside of the definition; the others keep their order
+  let isOuter := fun (p : String) => p ≠ r.path && !Str.hasPrefix (r.path ++ "/") p
+  match pr.findIdx? isOuter with
+  | none => pure (st, false)   -- only self-references (or no parent at all): nothing to re-inline into
+  | some i =>
+    let p0 := pr[i]?.getD ""
+    let others := pr.take i ++ pr.drop (i + 1)
     let d1 ← Replace.updateRefWithSchema st.doc p0 r.schema
     let adopt := fun (key : String) (acc : List (String × NewRef) × Bool) =>
       match getNR key acc.1 with
